@@ -564,6 +564,35 @@ func (a *linAn) factsAt(bb *ssa.BasicBlock) []lin {
 			}
 		}
 	}
+	// the standard index searches answer -1 or a position inside their first argument
+	for _, x := range a.fn.Blocks {
+		if !(x == bb || x.Dominates(bb)) {
+			continue
+		}
+		for _, ins := range x.Instrs {
+			call, ok := ins.(*ssa.Call)
+			if !ok {
+				continue
+			}
+			h := call.Call.StaticCallee()
+			if h == nil || h.Pkg == nil || len(call.Call.Args) < 2 {
+				continue
+			}
+			if pp := h.Pkg.Pkg.Path(); pp != "strings" && pp != "bytes" {
+				continue
+			}
+			switch h.Name() {
+			case "Index", "IndexByte", "IndexRune", "IndexAny", "LastIndex", "LastIndexByte", "LastIndexAny":
+			default:
+				continue
+			}
+			r := a.expr(call)
+			f.ge = append(f.ge, r.add(linConst(1), 1))
+			if ln, ok := a.lenOfX(call.Call.Args[0]); ok {
+				f.ge = append(f.ge, ln.add(r, -1).add(linConst(1), -1))
+			}
+		}
+	}
 	// strings.Split with a separator that is not empty yields at least one element; and when
 	// the text is not empty while the first element is, the separator occurs in the text, so
 	// there are at least two
